@@ -357,6 +357,37 @@ fn judge(ctx: &mut Ctx, p: &Prepared, shp: &[u8], n_shp: usize, shx: &[u8], rbuf
             }
         }
     }
+    // one image in 16 (by content) also lands in files and is read by path, without index file
+    if do_noindex && crate::prng::fnv(shp) % 16 == 0 {
+        let dir = crate::scratch_dir();
+        let path = dir.join(format!("crash-{}.shp", crate::prng::fnv(shp)));
+        if std::fs::write(&path, shp).is_ok() {
+            let _ = std::fs::remove_file(path.with_extension("shx"));
+            let r = guarded(|| match ShapeReader::from_path(&path) {
+                Ok(mut r) => Some(drain_to_first_err(r.iter_shapes(), item_cap(shp.len(), 0))),
+                Err(_) => None,
+            });
+            let need = p.durable.iter().filter(|(k, _)| *k < n_shp).map(|(_, w)| *w).max().unwrap_or(0);
+            match r {
+                Err(pi) => ctx.fail("C11", "panic", pi.site(), format!("by-path read of a crash image: {}", pi.text())),
+                Ok(None) => {
+                    if need > 0 {
+                        ctx.fail("C11", "durability", "path:open", format!("{} shapes were written before a finalize that completed on the .shp, but the image cannot be opened by path", need));
+                    }
+                }
+                Ok(Some((items, _))) => {
+                    if let Some(v) = prefix_violation(&items, &p.expected) {
+                        ctx.fail("C11", "prefix", "path:noshx", format!("by-path read: {}", v));
+                    }
+                    if ok_prefix_len(&items) < need {
+                        ctx.fail("C11", "durability", "path:noshx", format!("{} shapes were written before a finalize that completed on the .shp, only {} are readable by path", need, ok_prefix_len(&items)));
+                    }
+                }
+            }
+            ctx.stats.reach("crash-image-read-by-path");
+            let _ = std::fs::remove_file(&path);
+        }
+    }
     if do_index {
         match read_with_index(shp, shx, rbuf) {
             Err(pi) => ctx.fail("C11", "panic", pi.site(), format!("indexed read of a crash image pair: {}", pi.text())),
